@@ -8,6 +8,8 @@ shards.  Mechanism keys name the helper and the clause, never the value.
 from __future__ import annotations
 
 import calendar
+import os
+import time
 from datetime import datetime as dt, timedelta as td
 
 PID = "C04"
@@ -40,6 +42,15 @@ REQUIRED = {
 
 SENTINEL_WORDS = {"31FF", "7EFF", "7FFF"}
 
+# POSIX TZ strings (no tzdata needed)
+TZS = [
+    ("utc", "UTC0"),
+    ("cet-dst", "CET-1CEST,M3.5.0,M10.5.0/3"),
+    ("us-eastern-dst", "EST5EDT,M3.2.0,M11.1.0"),
+    ("au-eastern-dst", "AEST-10AEDT,M10.1.0,M4.1.0/3"),
+    ("nepal+0545", "<+0545>-5:45"),
+]
+
 
 def _mine(ctx, i: int) -> bool:
     return i % ctx.nshards == ctx.shard
@@ -65,6 +76,15 @@ def _run(ctx) -> None:  # noqa: C901
     from ramses_tx.address import Address, dev_id_to_hex_id, hex_id_to_dev_id
 
     thorough = not ctx.quick
+
+    # The wire carries local wall-clock fields: no codec may depend on the zone the host happens to be in.  Each
+    # shard walks its grids under one of several zones (most observe DST, one is on a 45-minute offset), so every
+    # date-time grid meets the hour a zone skips in spring and the one it repeats in autumn.
+    tz_name, tz = TZS[ctx.shard % len(TZS)]
+    os.environ["TZ"] = tz
+    time.tzset()
+    ctx.seen(f"tz.{tz_name}")
+    ctx.count(f"tz.{tz_name}")
 
     # ---------------------------------------------------------------- temperatures
     if _mine(ctx, 0):
@@ -273,6 +293,8 @@ def _run(ctx) -> None:  # noqa: C901
             ctx.seen(f"dtm.{year}.{when.month}.{when.day}")
             for dst in (False, True):
                 hx = h.hex_from_dtm(when, is_dst=dst)
+                if h.hex_from_dtm(iso, is_dst=dst) != hx:
+                    ctx.violate("C04|hex_dtm|text-form-differs", "a date-time given as ISO text encodes differently from the same date-time given as an object", {"dtm": iso, "is_dst": dst, "tz": tz_name})
                 try:
                     back = h.hex_to_dtm(hx)
                 except Exception as err:  # noqa: BLE001
@@ -281,7 +303,7 @@ def _run(ctx) -> None:  # noqa: C901
                     ctx.violate(
                         "C04|hex_dtm|minute-altered",
                         "a date-time (minute form) does not round-trip",
-                        {"dtm": iso, "is_dst": dst, "hex": hx, "decoded": back},
+                        {"dtm": iso, "is_dst": dst, "hex": hx, "decoded": back, "tz": tz_name},
                     )
                 sec = (m * 7) % 60
                 when_s = when.replace(second=sec)
@@ -364,6 +386,10 @@ def _run(ctx) -> None:  # noqa: C901
     for x in pts:
         hx = f"{x:06X}"
         ctx.evals += 1
+        if x & 1:  # what was asked of an id before must not matter: half the ids are first asked for in the other form
+            hex_id_to_dev_id(hx, friendly_id=True)
+            conv_from(hx, friendly_id=True)
+            ctx.count("ids.friendly_asked_first")
         dev = hex_id_to_dev_id(hx)
         if dev_id_to_hex_id(dev) != hx:
             ctx.violate(
@@ -391,6 +417,12 @@ def _run(ctx) -> None:  # noqa: C901
                         "a 6-hex id rendered in the friendly form is read back by the library's own encoder as a different device",
                         {"hex": hx, "friendly": fr, "back": back},
                     )
+        if hex_id_to_dev_id(hx) != want or conv_from(hx) != want:
+            ctx.violate(
+                "C04|dev_id|decode-depends-on-earlier-call",
+                "a 6-hex id decodes differently once it has been asked for in the friendly form",
+                {"hex": hx, "want": want, "got": [hex_id_to_dev_id(hx), conv_from(hx)]},
+            )
         dev2 = conv_from(hx)
         if dev2 != dev or conv_to(dev2) != hx:
             ctx.violate(
@@ -404,7 +436,7 @@ def _run(ctx) -> None:  # noqa: C901
     ctx.sample({"codec": "dev_id", "hex": f"{lo:06X}", "dev_id": hex_id_to_dev_id(f"{lo:06X}")})
 
     if _mine(ctx, 6):  # ids outside the representable range must not wrap silently
-        for dev in ("01:262144", "01:262145", "04:999999", "63:262144", "00:300000"):
+        for dev in ("01:262144", "01:262145", "04:999999", "63:262144", "00:300000", "01:-00001", "01:-26214", "04:-00002", "-1:000001"):
             ctx.ev()
             ctx.count("ids.out_of_range")
             for name, fnc, inv in (
